@@ -342,6 +342,7 @@ retry:
 				// A concurrent delete may have marked x and finished its
 				// unlink pass before this link was made; nobody else would
 				// take x off this level then. Unlink it here and stop.
+				verifYield(VerifPtInsCheck)
 				if _, deleted := x.getNext(i); deleted {
 					s.findPath(itm, insCmp, buf, sts)
 					goto finished
